@@ -2,7 +2,7 @@ From Coq Require Import List NArith ZArith Bool Permutation.
 Import ListNotations.
 Require Import MV.Common.Interleave MV.C10.Model MV.C10.Spec MV.C10.Exec
                MV.C10.ProofsConc MV.C10.ProofsConc2 MV.C10.ProofsSeq MV.C10.ExecProofs
-               MV.C10.ProofsBound MV.C10.ProofsRefine MV.C10.ProofsWire MV.C10.ProofsSound.
+               MV.C10.ProofsBound MV.C10.ProofsRefine MV.C10.ProofsWire MV.C10.ProofsSound MV.C10.ProofsSuffix.
 Open Scope N_scope.
 Require Import MV.C10.Properties.
 
@@ -128,3 +128,10 @@ Check (C10_wire_stream_decodes : forall fs,
   Forall (fun b => W.len b < 4294967296) fs ->
   split_frames (length fs) (concat (map (MV.C09.Inv.frame true) fs)) = fs).
 Print Assumptions C10_wire_stream_decodes.
+Check (C10_idle_once_suffix : forall fx f c0 s0 c sched,
+  Pre f c0 s0 c ->
+  let c' := fst (exec (step fx) site c sched) in
+  (Pre f c0 s0 c' /\ sent (fst c') = s0) \/
+  exists s1 i1, (s1 = s0 \/ exists d, s1 = d :: s0) /\ Qinv c0 s1 i1 c' /\
+                (sent (fst c') = s1 \/ (i1 = false /\ sent (fst c') = 0 :: s1))).
+Print Assumptions C10_idle_once_suffix.
